@@ -453,7 +453,7 @@ func (c *Ctx) oneAppendPerIteration(rule, key string, f *ssa.Function, sliceType
 		}
 		cut := map[edge]bool{}
 		for _, s := range ap.Block().Succs {
-			cut[edge{ap.Block(), s}] = true
+			cut[edge{from: ap.Block(), to: s}] = true
 		}
 		ok = true
 		for _, e := range l.bodyEntries() {
